@@ -1943,12 +1943,29 @@ func ruleAPIOwnerOfStaking(c *report.Ctx) {
 		}
 	}
 	if ri < 0 {
-		c.Fail(sk(f)+":recipient-source", "anchor lost: extractAddressInfos has no recipient result", p.Pos(f.Pos()))
-		return
-	}
-	for _, b := range f.Blocks {
-		if r, ok := b.Instrs[len(b.Instrs)-1].(*ssa.Return); ok && len(r.Results) > ri {
-			walk(an.RetOperand(r, ri), b, map[ssa.Value]bool{})
+		// the results gathered in a record: the recipient is what is stored into the field named so
+		nrec := 0
+		an.Instrs(f, func(in ssa.Instruction) {
+			st, ok := in.(*ssa.Store)
+			if !ok {
+				return
+			}
+			fa, ok := st.Addr.(*ssa.FieldAddr)
+			if !ok || an.FName(derefStructT(fa.X.Type()), fa.Field) != "recipient" {
+				return
+			}
+			nrec++
+			walk(st.Val, in.Block(), map[ssa.Value]bool{})
+		})
+		if nrec == 0 {
+			c.Fail(sk(f)+":recipient-source", "anchor lost: extractAddressInfos has no recipient result", p.Pos(f.Pos()))
+			return
+		}
+	} else {
+		for _, b := range f.Blocks {
+			if r, ok := b.Instrs[len(b.Instrs)-1].(*ssa.Return); ok && len(r.Results) > ri {
+				walk(an.RetOperand(r, ri), b, map[ssa.Value]bool{})
+			}
 		}
 	}
 	n := 0
@@ -2696,8 +2713,16 @@ func rulePrefixTerminated(c *report.Ctx) {
 			return false, p.Desc(v)
 		case *ssa.Parameter:
 			return true, "" // checked at the callers
+		case *ssa.UnOp:
+			// a variable assigned once (possibly read in a literal of the function that captures it)
+			if r := an.ResolveCell(x); r != ssa.Value(x) {
+				return okPrefix(r, depth+1)
+			}
 		case *ssa.Phi:
 			for _, e := range x.Edges {
+				if an.IsNilConst(e) {
+					continue // the nil of an error return merged in; the caller leaves on the error
+				}
 				if ok, why := okPrefix(e, depth+1); !ok {
 					return false, why
 				}
